@@ -530,13 +530,19 @@ Definition index_of (p : path) (l : list path) : N :=
      match l with [] => i | q :: r => if path_eqb p q then i else go r (i + 1) end) l 0.
 
 (* ---- expected lines computed from the reference aggregation only ---- *)
-Definition ref_flame (sample : N) (tids : list N) (s : stream) : list (list N * N) :=
+(* [adjust] = true: the children's time is rounded down to whole samples before it is subtracted
+   (adjust_fg_time: time that gave no sample to a child is shown in the parent);
+   [adjust] = false: plain self time / sample time *)
+Definition child_time_of (p : path) (l : list rcall) : N :=
+  fold_right (fun c acc => if path_eqb p (removelast (rc_path c)) then acc + rc_dur c else acc) 0 l.
+Definition ref_flame_gen (adjust : bool) (sample : N) (tids : list N) (s : stream) : list (list N * N) :=
   let es := ref_entries [] s in
   let cs := ref_calls tids s in
   flat_map (fun p =>
               let cnt := if sample =? 0 then count_path p es
-                         else (time_path p cs - sampled_child_time sample p cs) / sample in
+                         else (time_path p cs - (if adjust then sampled_child_time sample p cs else child_time_of p cs)) / sample in
               if cnt =? 0 then [] else [(join 59 p, cnt)]) (ref_paths s).
+Definition ref_flame := ref_flame_gen true.
 Definition ref_dot (rootname : name) (s : stream) : list (list N) :=
   let es := ref_entries [] s in
   map (fun p => dq (last (removelast p) rootname) ++ s_arrow ++ dq (last p []) ++ s_xlabel
@@ -582,7 +588,8 @@ Definition ok_graph_rows (tids : list N) (s : stream) (rows : list grow) : bool 
 
 (* property C15, flame / graphviz / mermaid part: the printed lines are, as a multiset, the expected ones *)
 Definition ok_flame (sample : N) (tids : list N) (s : stream) (lines : list (list N)) : bool :=
-  same_lines lines (map flame_text_full (ref_flame sample tids s)).
+  same_lines lines (map flame_text_full (ref_flame_gen true sample tids s))
+  || same_lines lines (map flame_text_full (ref_flame_gen false sample tids s)).
 (* every expected count fits the space print_flame_graph gives it (outside: defect flame-count-truncated) *)
 Definition flame_all_fit (sample : N) (tids : list N) (s : stream) : bool :=
   forallb flame_fits (ref_flame sample tids s).
